@@ -5,8 +5,8 @@
    None + the error its serialisation raises): "the block or its comment cannot be encoded
    (over-long or non-cp1252 label at any position, unsupported format, wrong object)" is
    b_payload = None, whatever the position of the failing element. *)
-From Model Require Import Base Str Fmt Container AFile.
-From Proofs Require Import BaseFacts ContainerFacts ContainerProps.
+From Model Require Import Base Str Fmt Container AFile GFile.
+From Proofs Require Import BaseFacts ContainerFacts ContainerProps GapFacts.
 Open Scope Z_scope.
 
 Theorem C07_atomic : forall s o e s', compact s -> op_ok o -> step s o = (Raised e, s') -> s' = s.
@@ -23,6 +23,20 @@ Qed.
 Print Assumptions C07_continuation.
 
 (* add_block and remove_block are atomic on ANY state, compact or not *)
+(* the same on every ORDERED file (GFile.v: padding between blocks, bytes behind the last one — what a foreign writer
+   may leave), of which the packed files are a special case *)
+Theorem C07_atomic_ordered : forall s o e s', ordered s -> op_ok o -> step s o = (Raised e, s') -> s' = s.
+Proof. exact gstep_atomic. Qed.
+Print Assumptions C07_atomic_ordered.
+
+Theorem C07_continuation_ordered : forall s o e s' ops, ordered s -> op_ok o ->
+  step s o = (Raised e, s') -> run_ops s (o :: ops) = run_ops s ops.
+Proof.
+  intros s o e s' ops Hc Ho E. cbn [run_ops fold_left]. rewrite E. cbn [snd].
+  now rewrite (gstep_atomic s o e s' Hc Ho E).
+Qed.
+Print Assumptions C07_continuation_ordered.
+
 Theorem C07_add_any_state : forall s b c now e s', c_add s b c now = (Raised e, s') -> s' = s.
 Proof. exact c_add_raise_same. Qed.
 Print Assumptions C07_add_any_state.
